@@ -312,8 +312,49 @@ func runC16b(t *testing.T, run *mc.Run) int {
 			run.Violation(fmt.Sprintf("C16:wiring:%s-first:event-write-in-progress-at-a-cleanup-instant", first), map[string]any{"first": first}, msg)
 		}
 	}
+	// the LOGIN record arrives right behind an unfinished record group of an unrelated process (the reassembler
+	// releases events in serial order: it keeps the LOGIN record until the group in front has timed out), then the
+	// stream falls silent; the login follows 5 s (58 s) later, and only minutes afterwards does the stream go on:
+	// the halves were 5 s apart as the correlator saw them - they are correlated
+	for _, gap := range []time.Duration{5 * time.Second, 58 * time.Second} {
+		n++
+		var msg string
+		bubble(t, func() {
+			r := startRead(0)
+			defer r.stop()
+			vsleep(7 * time.Second)
+			open := auditgen.Syscall(1700000010, 2990, "4294967295", "900", "yes", []string{"x"}, 1, false)
+			for _, rec := range open.Recs[:2] {
+				r.offerLine(rec.Line + "\n")
+			}
+			r.offerLine(auditgen.Simple("LOGIN", 1700000011, 2991, "7", "4242", "1").Recs[0].Line + "\n")
+			vsleep(gap)
+			r.offerLogin(mkLogin(bindPID, "1"))
+			vsleep(300 * time.Second) // silence
+			r.offerLine(auditgen.Simple("USER_START", 1700000021, 3001, "7", "4242", "success").Recs[0].Line + "\n")
+			r.offerLine(auditgen.Simple("USER_ACCT", 1700000022, 3002, "7", "4242", "success").Recs[0].Line + "\n")
+			vsleep(30 * time.Second)
+			evs, _ := r.w.events()
+			if r.returned {
+				msg = fmt.Sprintf("the processor stopped: %v", r.ret)
+				return
+			}
+			c := 0
+			for _, e := range evs {
+				if e.Metadata.AuditID == "7" {
+					c++
+				}
+			}
+			if c != 3 {
+				msg = fmt.Sprintf("LOGIN record (behind an unfinished group of another process) and login %v apart, then 300 s of silence, then two more records of the session: %d events of the session emitted, want 3", gap, c)
+			}
+		})
+		if msg != "" {
+			run.Violation("C16:wiring:login-record-behind-an-unfinished-group", map[string]any{"gap_s": gap.Seconds()}, msg)
+		}
+	}
 	cov := mc.Coverage{Level: "model_checking", States: n, Transitions: n * 8, Traces: n, Evaluations: n, Distinct: dropped, Exhaustive: true, Samples: samples,
-		Rule:  "the real Auditd.Read under testing/synctest's virtual clock: first half in {login, LOGIN record + 2 events, the same session producing a further event every 20 s, login / session with unrelated logins arriving every 20 s meanwhile} x phase of its arrival within the cleanup period x gap to the second half, then two probe events; gap < 60 s must correlate (5 events), gap > 120 s must emit nothing ever; 60..120 s unjudged; plus cells in which a login is delivered twice (identical, or a new login for the same pid) 40 s apart and the LOGIN record follows 30 s later (must correlate, with the second login's identity); plus 4 cells in which the loop itself is stalled (its write to the events output blocks while another session is flushed) for 72 s / 200 s across a cleanup instant and the second half arrives >= 126 s after the first; plus 2 cells in which another session's event is in the middle of its write (4 s) when a cleanup is due. distinct_nontrivial = cells in which the pending half must have been discarded",
+		Rule:  "the real Auditd.Read under testing/synctest's virtual clock: first half in {login, LOGIN record + 2 events, the same session producing a further event every 20 s, login / session with unrelated logins arriving every 20 s meanwhile} x phase of its arrival within the cleanup period x gap to the second half, then two probe events; gap < 60 s must correlate (5 events), gap > 120 s must emit nothing ever; 60..120 s unjudged; plus cells in which a login is delivered twice (identical, or a new login for the same pid) 40 s apart and the LOGIN record follows 30 s later (must correlate, with the second login's identity); plus 4 cells in which the loop itself is stalled (its write to the events output blocks while another session is flushed) for 72 s / 200 s across a cleanup instant and the second half arrives >= 126 s after the first; plus 2 cells in which another session's event is in the middle of its write (4 s) when a cleanup is due; plus 2 cells in which the LOGIN record arrives behind an unfinished record group of another process, the stream falls silent for 300 s and the login comes 5 s / 58 s after the record (must correlate). distinct_nontrivial = cells in which the pending half must have been discarded",
 		Extra: map[string]any{"phases_s": len(phases), "gaps": len(gaps)}}
 	cov.Assumptions = []string{"virtual clock of testing/synctest"}
 	return run.Finish(cov)
